@@ -185,10 +185,10 @@ class ToyMulti:
         pos = d > 0
         if not np.any(pos):
             return None
-        smax = np.min(x[pos] / d[pos]) * (1 - 1e-12)
-        f = lambda s: self.dG(x - s * d, T, precPhase)
+        smax = np.min(x[pos] / d[pos])
+        f = lambda s: self.dG(np.clip(x - s * d, 0.0, 1.0), T, precPhase)     # dG floors compositions at 1e-30
         if f(smax) > 0:
-            return None
+            return np.clip(x - smax * d, 1e-30, 1.0)      # the limiting solute is exhausted before equilibrium is reached
         a, b = 0.0, smax
         for _ in range(100):
             m = 0.5 * (a + b)
